@@ -13,6 +13,7 @@ Model: `VlsModel/Model/Enforcement.lean` (`step` on `Sys` = in-memory channel + 
 `Out.validated = some m`: the request's validation of holder commitment `m` succeeded, which in the
 model requires `policyOk = true` and `sigsValid = true` (the latter is the harness-supplied fact
 "the counterparty signatures verify on the recomposed transactions").
+All request-supplied numbers are covered (the release guards use checked arithmetic since 0078200).
 The hypothesis "the policy filter maps policy-revoke-new-commitment-signed to Error" is built into
 the model (default, non-permissive filter; `SimpleValidatorFactory::new()`).
 Only property theorems live here; helper lemmas are in `VlsModel/Lemmas/Enforcement.lean`.
@@ -151,30 +152,29 @@ theorem C01_retry_restart (F : Nat → Bytes → Bytes) (ops₁ ops₂ : List Op
     SecretsJustified (runH F init [] (ops₁ ++ .restart :: ops₂)).2 :=
   run_inv F _ init [] I_init trivial
 
-/-! ### Release builds (finding F13)
+/-! ### The release guard is total (finding F13, fixed by 0078200)
 
-`get_per_commitment_secret` computes `commitment_number + 2 > next_holder_commit_num` with a plain
-`+` on `u64`.  The model above returns `panic` when the sum overflows (debug build, what the harness
-runs).  A release build wraps; the guard then *passes* for `commitment_number = u64::MAX` as soon as
-`next_holder_commit_num ≥ 1`, and the code goes on to `release_commitment_secret(2^48 - 1 - n)` with
-a wrapped index.  So the full-strength statement "a secret is released only if `n + 2 ≤ next`" is
-false for the wrapping guard; the witness below is kernel-checked.  `C01_main` is therefore a theorem
-about the checked-arithmetic (debug) semantics; see notes/C01-C03.md for the replay on real code. -/
+Before the fix `get_per_commitment_secret` computed `commitment_number + 2 > next_holder_commit_num`
+with a plain `+`: a debug build panicked for `commitment_number ≥ 2^64-2`, a release build wrapped,
+passed the guard and returned a secret (for `u64::MAX` the commitment seed).  The code now uses
+`checked_add` / `saturating_add`; the model has no `panic` outcome on these paths any more and
+`C01_main` holds for every request-supplied number without a build-mode caveat. -/
 
-/-- the wrapping guard releases for `n = u64::MAX` (and `u64::MAX - 1`) although `n + 2 > next` -/
-theorem C01_release_guard_wraps :
-    getSecretWrapGuard 1 U64.MAX = true ∧ getSecretWrapGuard 0 (U64.MAX - 1) = true ∧
-    ¬ (U64.MAX + 2 ≤ 1) := by decide
+/-- the release guard, for every number including those whose successor does not fit in `u64` -/
+theorem C01_guard (c : Chan) (n k : Nat) (hk : (getSecret c n).secret = some k) :
+    k = n ∧ n + 2 ≤ c.next ∧ n + 2 ≤ U64.MAX ∧ c.slot = .ready := by
+  unfold getSecret at hk
+  repeat' split at hk
+  all_goals simp at hk
+  rename_i hs h1 h2
+  exact ⟨hk.symm, by omega, by omega, hs⟩
 
-/-- for numbers that cannot overflow the two guards agree, so the finding is confined to
-    `n ≥ 2^64 - 2` -/
-theorem C01_release_guard_agrees (next n : Nat) (hn : n + 2 ≤ U64.MAX) :
-    getSecretWrapGuard next n = decide (n + 2 ≤ next) := by
-  unfold getSecretWrapGuard U64.wrapAdd U64.SIZE
-  unfold U64.MAX at hn
-  have : (n + 2) % 18446744073709551616 = n + 2 := Nat.mod_eq_of_lt (by omega)
-  rw [this]
-  by_cases h : n + 2 ≤ next <;> simp [h] <;> omega
+/-- the secret accessors never panic -/
+theorem C01_guard_no_panic (c : Chan) (n : Nat) :
+    (getSecret c n).res ≠ .panic ∧ (getSecretOrNone c n).res ≠ .panic ∧ (release c n).res ≠ .panic := by
+  unfold release getSecret getSecretOrNone
+  refine ⟨?_, ?_, ?_⟩
+  all_goals (repeat' split) <;> simp
 
 /-! ### Non-vacuity: concrete histories -/
 
